@@ -79,8 +79,20 @@ let forloop () =
       print_endline (id ^ " S:" ^ show_for cap (for_s (nat_of_int cap) x l st))
     | _ -> ())
 
+let strmode () =
+  iter_lines (fun line ->
+    match split_on ' ' line with
+    | [id; h] ->
+      let l = List.map z_of_int (bytes_of_hex h) in
+      print_endline (id ^ " S:" ^ (match s_str2number l with Some x -> show_num x | None -> "N"))
+    | [id; h; base] ->
+      let l = List.map z_of_int (bytes_of_hex h) in
+      print_endline (id ^ " S:" ^ (match s_tonumber_base l (z_of_int (int_of_string base)) with Some z -> "I" ^ hex_of_z z | None -> "N"))
+    | _ -> ())
+
 let () =
   match Sys.argv with
+  | [| _; "str" |] -> strmode ()
   | [| _; "for" |] -> forloop ()
   | [| _; "ops" |] -> ops ()
   | [| _; "f2i" |] -> f2i ()
